@@ -457,6 +457,10 @@ func (m *Manager) lock() {
 				addr.lock()
 			case *scriptAddress:
 				addr.lock()
+			case *witnessScriptAddress:
+				addr.lock()
+			case *taprootScriptAddress:
+				addr.lock()
 			}
 		}
 	}
